@@ -244,6 +244,11 @@ AutoOnlyDefs == <<
   D("W-same", TSet(<<C(Int0), C(TBool), O(Int0)>>, FALSE, <<>>)),
   D("K-same", TChoice(<<C(Int0), C(Int0), C(TBool)>>, FALSE, <<>>)),
   D("K-rec", TChoice(<<C(I07), C(TRef("K-rec"))>>, FALSE, <<>>)),
+  \* mutual recursion through a MANDATORY component (asn1c holds it by pointer), also between optional ones in an extensible type
+  D("N-node", TSeq(<<C(I07), C(TRef("N-link")), O(IA5)>>, FALSE, <<>>)),
+  D("N-link", TChoice(<<C(TNull), C(TRef("N-node"))>>, FALSE, <<>>)),
+  D("N-frame", TSeq(<<O(I07), C(TRef("N-body")), Df(I07, I(0))>>, TRUE, <<>>)),
+  D("N-body", TChoice(<<C(TNull), C(TRef("N-frame"))>>, FALSE, <<>>)),
   D("Q-kk", TSeq(<<O(TRef("K-ib")), C(TRef("K-ib"))>>, FALSE, <<>>)) >>
 
 ModAutomatic == MkMod("VA", "AUTOMATIC", CommonDefs \o AutoOnlyDefs)
